@@ -229,6 +229,59 @@ CHECKS = {
                   "metamorphic relations as oracle",
         engine="grid",
     ),
+    "C04": dict(
+        category="exploration",
+        text="Exhaustive grid: 6 synthetic curves (3 models x clean/noisy) "
+             "x fitted model (own, a deliberately poor one, an "
+             "expression-constrained harness model) x segment x 6 ranges "
+             "(whole, interior, on samples, inverted, 3- and 5-point) x "
+             "range type x 3 weighting distances x k in {1, 0.5, 0.23} x "
+             "all subsets of {E, contact point, baseline} held fixed; every "
+             "output relation is re-computed with independent arithmetic "
+             "(C02's literature reference for the fit column).",
+        design_ref="DESIGN.md §2 C04",
+        note="Weighting distance under k != 1 is read in fitting "
+             "coordinates; a fixed contact point may move by 2 ulp for "
+             "k != 1 (cp*k/k).",
+        technique="exhaustive bounded enumeration of fit configurations "
+                  "with an independent-arithmetic oracle",
+        engine="grid",
+    ),
+    "C05": dict(
+        category="exploration",
+        text="Exhaustive grid: 3 curves x both segments x all 144 ordered "
+             "pairs of 12 interval endpoints built from the curve itself "
+             "(on samples, between samples, 1-ulp neighbours, segment ends, "
+             "+-inf, equal, inverted) x k in {1, 0.5}; 7 relative "
+             "intervals; plateau search with 3 sample counts x 4 ranges. "
+             "Every optimisation pass is intercepted (lmfit.minimize "
+             "wrapper) and the point set it was given is compared with a "
+             "set comprehension over the abscissa.",
+        design_ref="DESIGN.md §2 C05",
+        note="Plateau search on the approach segment with >= 7 samples "
+             "only (O2, O10).",
+        technique="exhaustive bounded enumeration of range configurations "
+                  "with per-pass monitoring and a set-comprehension oracle",
+        engine="grid",
+    ),
+    "C11": dict(
+        category="exploration",
+        text="Exhaustive grid: 3 power-law models x 6 values of k x "
+             "clean/noisy x segment x 4 range modes (whole, interval, "
+             "relative cp, plateau) x 3 initial contact points (incl. "
+             "non-zero); each cell is compared with the k = 1 run of the "
+             "same cell (contact point, baseline, curve, xmin/xmax, mask, "
+             "E k^p), and every optimisation pass must start from k x the "
+             "stored initial contact point on k x the measured abscissa "
+             "(exact check).",
+        design_ref="DESIGN.md §2 C11",
+        note="Plateau cells on noisy data / strongly mismatched models "
+             "get the exact per-pass checks only (shallow scan fits are "
+             "ill-conditioned for every k).",
+        technique="exhaustive bounded enumeration with a metamorphic "
+                  "(k vs k=1) oracle and per-pass monitoring",
+        engine="grid",
+    ),
 }
 
 NA_REASON = "check not built yet in this session (under construction; see DESIGN.md §9 work order)"
@@ -267,7 +320,7 @@ def build():
              "kind_free_text": "complete enumeration of a finite input domain on the implementation"},
             {"name": "hist", "path": "mc/hist.py", "serves_properties": ["C03", "C06", "C09", "C10", "C12", "C16", "C20"],
              "kind_free_text": "explicit-state breadth-first search over operation histories on real objects (replay from scratch, canonical state hash, per-state and per-transition oracles, merge-soundness and determinism self-checks)"},
-            {"name": "grid", "path": "mc/grid.py", "serves_properties": ["C02", "C13"],
+            {"name": "grid", "path": "mc/grid.py", "serves_properties": ["C02", "C04", "C05", "C11", "C13"],
              "kind_free_text": "exhaustive cartesian enumeration of inputs/configurations, chunked over a spawn pool, reference-model or relational oracle per cell"},
             {"name": "store", "path": "mc/props/c03_store.py", "serves_properties": ["C03", "C18", "C19"],
              "kind_free_text": "closure (fixpoint) search of small dictionary-like stores against a reference model"},
